@@ -141,6 +141,13 @@ class Closure:
         return f"<fn {self.module.name}.{self.name}>"
 
 
+class PyFn:
+    """analysis-side model of a function: fn(interp, args, kwargs)"""
+    def __init__(self, fn, name="<model>"):
+        self.fn = fn
+        self.name = name
+
+
 class Bound:
     def __init__(self, fn, selfobj):
         self.fn = fn
@@ -273,6 +280,7 @@ SAFE_METHODS = {
     frozenset: set(),
     range: {"index", "count"},
 }
+SYM_METHODS = {"isdigit", "lower", "upper", "encode", "ljust", "rjust", "startswith", "endswith", "strip", "replace", "split", "join"}
 BINOPS = {
     ast.Add: sym.add, ast.Sub: sym.sub, ast.Mult: sym.mul, ast.FloorDiv: sym.floordiv, ast.Mod: sym.mod,
     ast.Pow: sym.pow_, ast.LShift: sym.shl, ast.RShift: sym.shr, ast.BitAnd: sym.band, ast.BitOr: sym.bor,
@@ -305,6 +313,7 @@ class Interp:
         self.attr_hook = None         # fn(obj, name) -> value | NotImplemented
         self.call_hook = None         # fn(interp, fval, args, kwargs, node) -> value | NotImplemented
         self.module_skip = set()      # modules whose top level is not evaluated (names resolved lazily)
+        self.persist_modules = True   # module top levels are folded once and shared by all paths
 
     # ------------------------------------------------------------------ exploration driver
     def add_cellvar(self, name, lo=None, hi=None, par=None):
@@ -341,12 +350,18 @@ class Interp:
         self.path_memo = {}
         self.effects = []
         self.cells = {k: c.copy() for k, c in self.cellvars.items()}
-        self.mod_env = {}
+        if not self.persist_modules:
+            self.mod_env = {}
+        else:
+            for name in list(self.mod_loading):
+                self.mod_env.pop(name, None)
         self.mod_loading = set()
         self.depth = 0
         self.steps = 0
 
     def choose(self, key):
+        if self.mod_loading and self.persist_modules:
+            raise Unsupported(f"fork during module initialisation of {sorted(self.mod_loading)}: {key!r}")
         if key in self.path_memo:
             return self.path_memo[key]
         if self.cursor < len(self.trail):
@@ -965,7 +980,7 @@ class Interp:
         t = type(op)
         if isinstance(a, Rec) or isinstance(b, Rec):
             return self.rec_binop(op, a, b)
-        if isinstance(a, (list, tuple)) or isinstance(b, (list, tuple)):
+        if (isinstance(a, (list, tuple)) and not is_sym(a)) or (isinstance(b, (list, tuple)) and not is_sym(b)):
             if t is ast.Add and type(a) is type(b):
                 return a + b
             if t is ast.Mult:
@@ -1218,6 +1233,8 @@ class Interp:
             v, owner = obj.cls.lookup(name)
             if v is None and owner is None:
                 raise Raised(ExcVal("AttributeError", args=(f"{obj.cls.name}.{name}",)))
+            if isinstance(v, PyFn):
+                return Bound(v, obj)
             if isinstance(v, Closure):
                 if getattr(v, "is_classmethod", False):
                     return Bound(v, obj.cls)
@@ -1273,6 +1290,8 @@ class Interp:
         if isinstance(obj, ExcVal):
             return sym.op("attr", sym.var(f"exc:{obj.name}", "any"), name)
         if is_sym(obj):
+            if sym.kind(obj) in ("str", "bytes") and name in SYM_METHODS:
+                return ("symmethod", obj, name)
             return sym.op("attr", obj, name)
         if isinstance(obj, SymDict):
             return ("symdict-method", obj, name)
@@ -1425,6 +1444,8 @@ class Interp:
             r = self.call_hook(self, f, args, kwargs, node)
             if r is not NotImplemented:
                 return r
+        if isinstance(f, PyFn):
+            return f.fn(self, list(args), kwargs)
         if isinstance(f, Bound):
             if isinstance(f.fn, Closure):
                 return self.call_closure(f.fn, [f.selfobj] + list(args), kwargs, node)
@@ -1440,6 +1461,8 @@ class Interp:
             return self.call(Bound(c, f), args, kwargs, node)
         if isinstance(f, tuple) and len(f) == 3 and f[0] == "method":
             return self.call_builtin_method(f[1], f[2], args, kwargs)
+        if isinstance(f, tuple) and len(f) == 3 and f[0] == "symmethod":
+            return self.call_sym_method(f[1], f[2], args, kwargs)
         if isinstance(f, tuple) and len(f) == 3 and f[0] == "symdict-method":
             d, name = f[1], f[2]
             if name == "get":
@@ -1610,6 +1633,33 @@ class Interp:
             return getattr(obj, name)(*args, **kwargs)
         except (ValueError, TypeError, KeyError, IndexError, UnicodeError, LookupError) as ex:
             raise Raised(ExcVal(type(ex).__name__, args=(str(ex),))) from None
+
+    def call_sym_method(self, obj, name, args, kwargs):
+        if name == "isdigit":
+            parts = obj[2:] if obj[0] == "op" and obj[1] == "cat" else (obj,)
+            ok = True
+            for p in parts:
+                if is_sym(p):
+                    if not (p[0] == "op" and p[1] == "str" and is_sym(p[2]) and p[2][0] == "op" and p[2][1] == "bit"):
+                        ok = False
+                elif not (isinstance(p, str) and p.isdigit()):
+                    ok = False
+            if ok:
+                return True
+            return self.choose(("isdigit", obj))
+        if name in ("lower", "upper"):
+            if obj[0] == "op" and obj[1] in ("lower", "upper"):
+                return sym.op(name, obj[2])
+            return sym.op(name, obj)
+        if name == "encode":
+            return sym.op("encode", obj, *(args or ["utf-8"]))
+        if name in ("ljust", "rjust"):
+            return sym.op(name + ("b" if sym.kind(obj) == "bytes" else ""), obj, *args)
+        if name in ("startswith", "endswith"):
+            return sym.op(name, obj, *args)
+        if name == "join":
+            return self.call_builtin_method(obj, name, args, kwargs)
+        return sym.op("call", sym.op("attr", obj, name), *args)
 
     # external (stdlib) models ------------------------------------------------
     def call_ext(self, f, args, kwargs, node, env, mod):
